@@ -356,6 +356,7 @@ def oracle_contour(c, out=None):
 CONTOUR_PRELUDE = MASK_PRELUDE + """
 Definition rows_eq := all2 (all2 fbits_eq).
 Inductive impl_coords := IOne (pts : list (list float)) | IMany (sets : list (list (list float))).
+Definition labels_single (n_dim nm : nat) : bool := Nat.eqb n_dim 2 && Nat.eqb nm 1.
 (* 0 ok; 1 erosion; 2 boundary; 3 label contract; 4 one-array / many-sets dispatch differs; 5 coordinates differ;
    6 sorter model None; 7 kNN contract; 8 structure is not ones((3,)*n) *)
 Definition cmp_contour (n_dim : nat) (sh : list nat) (hdr eer ehdc : list bool) (labels : list nat) (nm : nat)
@@ -363,18 +364,13 @@ Definition cmp_contour (n_dim : nat) (sh : list nat) (hdr eer ehdc : list bool) 
   if negb structure_ok then 8%Z else
   let c := cmp_mask sh hdr eer ehdc labels nm in
   if negb (c =? 0)%Z then c else
-  let sets := map (region_coords nan sh coords) (regions labels nm) in
-  match dispatch n_dim sets, impl with
-  | ManyRegions s, IMany e => if all2 rows_eq s e then 0%Z else 5%Z
-  | OneRegion p, IOne e => if rows_eq p e then 0%Z else 5%Z
-  | SortedLine p, IOne e =>
-      let xs := map (fun r => nth 0 r nan) p in
-      let ys := map (fun r => nth 1 r nan) p in
-      if negb (knn_ok (List.length xs) nbr) then 7%Z else
-      match f_sort_points xs ys nbr true with
-      | None => 6%Z
-      | Some order => if rows_eq (map (fun k => nth (Z.to_nat k) p []) order) e then 0%Z else 5%Z
-      end
+  let final := f_hdc_coordinates n_dim sh labels nm coords nbr in
+  let line := match labels_single n_dim nm with true => negb (knn_ok (List.length (region_cells labels 1)) nbr) | false => false end in
+  if line then 7%Z else
+  match final, impl with
+  | FMany s, IMany e => if all2 rows_eq s e then 0%Z else 5%Z
+  | FOne p, IOne e => if rows_eq p e then 0%Z else 5%Z
+  | FSorterFailed, _ => 6%Z
   | _, _ => 4%Z
   end.
 """
@@ -454,7 +450,7 @@ def run(ctx):
     dist = {}
     items = []
     # ---------------- A: sorter
-    n_a = ctx.n(150, 3000)
+    n_a = ctx.n(150, 2000)
     cases_a = [gen_points(rng, big=(i % 12 == 0)) for i in range(n_a)]
     outs_a = [run_sorter(c) for c in cases_a]
     coq_a = []
@@ -482,7 +478,7 @@ def run(ctx):
         items.append(("sort_%d" % (s // ashard), body))
     n_sa = len(items)
     # ---------------- B: masks
-    n_b = ctx.n(300, 5000)
+    n_b = ctx.n(300, 3000)
     cases_b = [gen_mask(rng) for _ in range(n_b)]
     res_b = [run_mask(c) for c in cases_b]
     for c, r in zip(cases_b, res_b):
@@ -496,7 +492,7 @@ def run(ctx):
         items.append(("mask_%d" % (s // bshard), body))
     n_sb = len(items)
     # ---------------- C: contours
-    n_c = ctx.n(40, 400)
+    n_c = ctx.n(40, 300)
     max_cells = ctx.n(900, 2000)
     cases_c = [l7_case()]
     for i in range(n_c):
@@ -607,11 +603,11 @@ def run(ctx):
             if ctx.violation(o2[0], "HighestDensityContour: " + o2[1], small):
                 found += 1
     # larger grids: oracle only
-    n_big = ctx.n(4, 40)
+    n_big = ctx.n(4, 14)
     for i in range(n_big):
         if found >= 8:
             break
-        c = gen_contour_case(rng, ctx.n(12000, 40000), big=True, multimodal=(i % 4 == 3))
+        c = gen_contour_case(rng, ctx.n(12000, 25000), big=True, multimodal=(i % 4 == 3))
         out = run_contour(c)
         key = "bigcontour/%dd/%s" % (len(c["desc"]["dims"]), out.get("err", "ok"))
         dist[key] = dist.get(key, 0) + 1
